@@ -1,0 +1,18 @@
+//go:build verif
+
+package markup
+
+// Contracts for the markup package. Comment-only: read by the verifier in /verif/govc.
+//
+// What the dialogue runner relies on: a parse result records (ghost) the text it was parsed from,
+// and parsing succeeds or fails as a function of that text only (C14).
+//
+//@ ghost field ParseResult.src string
+//
+//@ func (lineParser *LineParser) ParseMarkup(input string) (res *ParseResult, err error)
+//@   trusted
+//@   requires lineParser != nil
+//@   modifies fields(lineParser)
+//@   ensures (err == nil) == parseOk(input)
+//@   ensures err == nil ==> res != nil && fresh(res) && res.src == input
+//@   ensures err != nil ==> res == nil
